@@ -13,7 +13,7 @@ N3 = '{"v0","v1","v2"}'
 
 def cfg(nodes, mode, lemmas=True):
     s = f'CONSTANT Nodes = {nodes}\nCONSTANT Mode = "{mode}"\nINIT Init\nNEXT Next\n'
-    if lemmas and mode == "pc":
+    if lemmas and mode in ("pc", "pcfile"):
         s += "INVARIANT MeekSound\nINVARIANT MeekComplete\nINVARIANT CPDAGExtendsToClass\n"
     return s + "INVARIANT Emit\n"
 
@@ -34,6 +34,21 @@ def run(ctx):
     if len(pds) != 4096:
         raise Machinery(f"expected 4096 PDAGs, got {len(pds)}")
     ctx.exhaustive = True
+    if ctx.thorough:
+        # sampled 5-node ground truths: class / CPDAG by enumeration over all 29 281 DAGs, Meek lemmas included
+        rng = random.Random(ctx.seed + 125)
+        dags = []
+        for _ in range(40):
+            order = [f"v{i}" for i in range(5)]
+            rng.shuffle(order)
+            pr = rng.choice([0.3, 0.5, 0.7])
+            dags.append([[order[i], order[j]] for i in range(5) for j in range(i + 1, 5) if rng.random() < pr])
+        f5 = os.path.join(ctx.work, "dags5.json")
+        with open(f5, "w") as fh:
+            json.dump(dags, fh)
+        r5 = ctx.tlc("Gen_C12", cfg('{"v0","v1","v2","v3","v4"}', "pcfile"), env={"INST_FILE": f5}, tag="Gen_pc5", timeout=7200)
+        pcs = pcs + r5.prints
+        ctx.extra["sampled_5_node_ground_truths"] = len(r5.prints)
     for c in pcs:
         ctx.count(("pc", json.dumps(sorted(c["edges"]))), nontrivial=len(c["edges"]) >= 2, n=0)
     next_ext = sum(1 for c in pds if c["ext"])
